@@ -5,7 +5,12 @@ mv, in/out structures, .T, .I, as_matrix, reduce, and the four block product rul
 `(A @ B).reduce()`), on containers {bare operator, [A], (A,), {'a': A}, [A, B], (A, B, C), {'b': A, 'a': B}
 (unsorted insertion order), [[A, B], C], {'x': [A, B], 'y': (C,)}} of blocks of every kind (dense
 square/wide/tall, a block that is itself a block row (pytree input) or a block column (pytree output),
-identity, scalar, diagonal, QU rotation, HWP), with matching and mismatching shared structures.
+identity, scalar, diagonal, QU rotation, HWP), with matching and mismatching shared structures.  The shared
+side (row: output, column: input) also ranges over ~30 PYTREE structures (VARIANTS: tuple / list / dict / nested /
+Stokes / singleton containers over the same leaves, other dict keys, other leaf dtype / shape / count), carried by
+identity / scalar operators on them and by block-diagonal / block-row / block-column blocks: all ordered pairs of
+variants with equally many leaves must be refused, equal structures in distinct objects (and dicts in another
+insertion order) accepted.
 Model: Model/Algebra.v (mk_block, structs, transpose, reduce, block rules), Model/Denote.v (denote of
 Block terms), Model/BlockMat.v (binv, hstack/vstack/block_diag of the blocks' matrices), evaluated by
 vm_compute on the encoded blocks (harness/algebra.py).
@@ -70,6 +75,86 @@ LET.update({
     'BCqs': {'k': 'col', 'blocks': ['Q3', 'W']},
 })
 
+# ---- pytree-valued SHARED structures (the side a block row / column validates at construction) ----
+# Every way two pytree structures can differ, over the same few leaves: container kind with equal leaves
+# (tuple / list / dict / Stokes class), dict keys, nesting depth and association, leaf versus singleton
+# container, leaf dtype, leaf shape, number of leaves.  name -> algebra.mk_struct description.
+_s, _w, _h = [2], [3], {'shape': [2], 'dtype': 'float16'}
+VARIANTS = {
+    # one leaf
+    's': _s, 't1': {'tuple': [_s]}, 'l1': {'list': [_s]}, 'da': {'dict': {'a': _s}}, 'db': {'dict': {'b': _s}},
+    't11': {'tuple': [{'tuple': [_s]}]}, 'kI': {'stokes': 'I', 'shape': [2]},
+    'h': _h, 'w': _w, 't1h': {'tuple': [_h]},
+    # two leaves
+    't2': {'tuple': [_s, _s]}, 'l2': {'list': [_s, _s]}, 'dab': {'dict': {'a': _s, 'b': _s}},
+    'dba': {'dict': {'b': _s, 'a': _s}},   # EQUAL to dab (other insertion order): must be accepted together
+    'dac': {'dict': {'a': _s, 'c': _s}}, 'kQU': {'stokes': 'QU', 'shape': [2]},
+    't1t2': {'tuple': [{'tuple': [_s, _s]}]}, 't2n': {'tuple': [{'tuple': [_s]}, {'tuple': [_s]}]},
+    't2l': {'tuple': [_s, {'list': [_s]}]},
+    't2h': {'tuple': [_s, _h]}, 't2w': {'tuple': [_s, _w]}, 't2ws': {'tuple': [_w, _s]},
+    # three leaves
+    't3': {'tuple': [_s, _s, _s]}, 'nl': {'tuple': [{'tuple': [_s, _s]}, _s]}, 'nr': {'tuple': [_s, {'tuple': [_s, _s]}]},
+    'ln': {'list': [{'list': [_s, _s]}, _s]}, 'lt': {'list': [{'tuple': [_s, _s]}, _s]},
+    'kIQU': {'stokes': 'IQU', 'shape': [2]},
+    'dn': {'dict': {'a': {'tuple': [_s, _s]}, 'b': _s}}, 'dn2': {'dict': {'a': _s, 'b': {'tuple': [_s, _s]}}},
+}
+FAMILY = {  # variants with the same number of leaves (the near misses of one another)
+    1: ['s', 't1', 'l1', 'da', 'db', 't11', 'kI', 'h', 'w', 't1h'],
+    2: ['t2', 'l2', 'dab', 'dba', 'dac', 'kQU', 't1t2', 't2n', 't2l', 't2h', 't2w', 't2ws'],
+    3: ['t3', 'nl', 'nr', 'ln', 'lt', 'kIQU', 'dn', 'dn2'],
+}
+
+
+def _all_f32(desc):
+    if isinstance(desc, list) and all(isinstance(i, int) for i in desc):
+        return True
+    if 'dtype' in desc and 'stokes' not in desc:
+        return desc['dtype'] == 'float32'
+    if 'stokes' in desc:
+        return True
+    kids = desc.get('list') or desc.get('tuple') or list(desc['dict'].values())
+    return all(_all_f32(k) for k in kids)
+
+
+def _as_container(desc, leafmap):
+    """The structure description as a container of block names (None when it has a Stokes node or a
+    leaf without a block in `leafmap`)."""
+    if isinstance(desc, list) and all(isinstance(i, int) for i in desc):
+        return leafmap.get(tuple(desc))
+    if 'list' in desc:
+        kids = [_as_container(d, leafmap) for d in desc['list']]
+        return None if any(k is None for k in kids) else kids
+    if 'tuple' in desc:
+        kids = [_as_container(d, leafmap) for d in desc['tuple']]
+        return None if any(k is None for k in kids) else {'tuple': kids}
+    if 'dict' in desc and 'stokes' not in desc:
+        kids = {k: _as_container(d, leafmap) for k, d in desc['dict'].items()}
+        return None if any(k is None for k in kids.values()) else {'dict': kids}
+    return None
+
+
+VPREFIX = ('Vi_', 'Vj_', 'Vh_', 'Vd_', 'Vr_', 'Vc_')
+VOPS: dict = {}   # variant -> names of the operators built on it
+for _v, _d in VARIANTS.items():
+    VOPS[_v] = [f'Vi_{_v}', f'Vj_{_v}']
+    LET[f'Vi_{_v}'] = {'k': 'ident', 's': _d}       # in = out = the variant
+    LET[f'Vj_{_v}'] = {'k': 'ident', 's': _d}       # an equal structure in another object
+    if _all_f32(_d):
+        LET[f'Vh_{_v}'] = {'k': 'homoth', 'v': 2, 's': _d}
+        VOPS[_v].append(f'Vh_{_v}')
+    for _tag, _k, _lm in (('Vd', 'bdiagop', {(2,): 'S22', (3,): 'A33'}),   # in = out = the variant
+                          ('Vr', 'row', {(2,): 'B22', (3,): 'A23'}),       # in = the variant, out = [2]
+                          ('Vc', 'col', {(2,): 'A22', (3,): 'A32'})):      # out = the variant, in = [2]
+        _c = _as_container(_d, _lm)
+        if _c is not None:
+            LET[f'{_tag}_{_v}'] = {'k': _k, 'blocks': _c}
+            VOPS[_v].append(f'{_tag}_{_v}')
+# operators of the shared alphabet on the Stokes variants and on the bare leaf
+VOPS['kQU'] += ['Qq', 'Wq']
+VOPS['kIQU'] += ['Q1', 'W', 'Hs']
+VOPS['s'] += ['A22', 'H2', 'D2', 'BR', 'BC']
+VOPS['w'] += ['A33', 'D3']
+
 # pools of blocks by shared structure
 OUT2 = ['A22', 'B22', 'S22', 'A23', 'I2', 'H2', 'BR', 'BRw', 'D2', 'A22s']
 OUT3 = ['A32', 'A33', 'I3', 'Hm3', 'D3']
@@ -121,6 +206,15 @@ def value_repr(y):
         return ['leaf', [A.frac_json(A.to_frac(float(v))) for v in np.asarray(y, dtype=np.float64).ravel()]]
     (k, arg), kids = ch
     return [k, arg if k in ('stokes', 'dict') else 0, [value_repr(c) for c in kids]]
+
+
+def tree_key(t, leaf):
+    """Container skeleton of a pytree with the dict keys and `leaf(x)` at the leaves."""
+    ch = A.tree_children(t)
+    if ch is None:
+        return ['leaf', leaf(t)]
+    (k, arg), kids = ch
+    return [k, arg, [tree_key(c, leaf) for c in kids]]
 
 
 def value_coq(x) -> str:
@@ -214,6 +308,9 @@ class Check(PropertyCheck):
         'object identity (`is`) is modelled by harness-assigned object ids; objects created by the code get id 0',
         'float32 arithmetic of the implementation is compared with exact rationals after rounding measured entries to '
         'rationals with denominator <= 4096 (exact for the integer/dyadic inputs used); tolerance 1e-4 on matrices',
+        'which blocks have mismatching shared structures is decided by the harness with its own structural key of the real '
+        'structures (container kind, dict keys, Stokes class, leaf shape and dtype: alg_cases.key), never with the `==` of '
+        'the code under test; the model decides it with struct_eqb on the encoded structures',
         'the inverse of a block is checked numerically only for closed-form inverses (identity, scalar, rotation); iterative '
         'InverseOperator blocks are compared structurally (C06 covers their action)',
     ]
@@ -266,9 +363,61 @@ class Check(PropertyCheck):
                     names[rng.randrange(arity)] = rng.choice(p2)
                     if len({self._shared(kind, n) for n in names}) > 1:
                         add(kind, shape, names, 'mismatch')
+        # 5. blocks whose SHARED side is a pytree (operators on tuple / list / dict / nested / Stokes structures,
+        #    block-diagonal, block-row and block-column blocks): equal structures held in different but equal
+        #    objects are accepted ...
+        vkey = {v: G.key(A.mk_struct(d)) for v, d in VARIANTS.items()}
+        multi = [sh for sh, (arity, _) in SHAPES.items() if arity > 1]
+
+        pools_v: dict = {}
+
+        def pool(kind, v):
+            # the operators BUILT ON variant v whose shared side (row: output, column: input) is v
+            if (kind, v) not in pools_v:
+                pools_v[kind, v] = [n for n in VOPS[v] if n not in bad and self._shared(kind, n) == vkey[v]]
+            return pools_v[kind, v]
+
+        for kind in ('row', 'col'):
+            for v in VARIANTS:
+                same = [u for u in VARIANTS if vkey[u] == vkey[v]]     # e.g. dab and dba
+                p = sorted({n for u in same for n in pool(kind, u)})
+                shapes = ['list2', rng.choice(multi[1:])] if quick else multi
+                for shape in shapes:
+                    for _ in range(1 if quick else 4):
+                        names = [rng.choice(p) for _ in range(SHAPES[shape][0])]
+                        if len(same) > 1:   # make sure both spellings of the same structure meet
+                            names[0], names[1] = rng.choice(pool(kind, same[0])), rng.choice(pool(kind, same[1]))
+                        add(kind, shape, names, 'ok')
+        #    ... and EVERY kind of difference between two structures is refused: all ordered pairs of variants with
+        #    the same number of leaves (container kind, dict keys, nesting, leaf vs singleton, Stokes vs plain, dtype,
+        #    leaf shape), sampled pairs with different numbers of leaves; first / other position of the odd block
+        def add_pair(kind, shape, v1, v2, pos=None):
+            if vkey[v1] == vkey[v2]:
+                return
+            arity = SHAPES[shape][0]
+            names = [rng.choice(pool(kind, v1)) for _ in range(arity)]
+            names[rng.randrange(arity) if pos is None else pos] = rng.choice(pool(kind, v2))
+            n0 = len(out)
+            add(kind, shape, names, 'mismatch')
+            if len(out) > n0:
+                out[-1]['pair'] = [v1, v2]
+
+        fams = sorted(FAMILY)
+        for kind in ('row', 'col'):
+            near = [(a, b) for f in fams for a in FAMILY[f] for b in FAMILY[f] if a != b]
+            far = [(a, b) for f in fams for g in fams if f != g for a in FAMILY[f] for b in FAMILY[g]]
+            rng.shuffle(far)
+            for a, b in near + (far[:40] if quick else far):
+                add_pair(kind, 'list2', a, b, pos=1)         # ordered pairs: both orders occur
+            for shape in multi[1:]:
+                sample = rng.sample(near, 8) if quick else near
+                for a, b in sample:
+                    add_pair(kind, shape, a, b)
+                for a, b in far[: 2 if quick else 60]:
+                    add_pair(kind, shape, a, b)
         # 4. products of block operators: every compatible ordered pair, sampled incompatible ones
         t = self._typed()
-        blockops = sorted(n for n, d in LET.items() if d['k'] in KIND and n in t)
+        blockops = sorted(n for n, d in LET.items() if d['k'] in KIND and n in t and not n.startswith(VPREFIX))
         compat, incompat = [], []
         for a in blockops:
             for b in blockops:
@@ -317,7 +466,12 @@ class Check(PropertyCheck):
             'single-block containers, sampled matching and mismatching assignments for the others; per operator: '
             'constructor outcome, structures, dense matrix by basis vectors, mv on a random integer input, .T, .I, '
             'as_matrix(), reduce(); ordered pairs of ~50 block operators multiplied and reduced (all compatible pairs in '
-            'the thorough tier, sampled incompatible ones). Non-trivial: constructor refusal, arity one, nested or dict '
+            'the thorough tier, sampled incompatible ones). Shared pytree structures: 30 variants (one / two / three leaves '
+            'in tuple, list, dict with other keys or insertion order, nested either way, singleton, Stokes I/QU/IQU, '
+            'float16 or longer leaf) carried by identity, scalar, block-diagonal, block-row and block-column blocks; every '
+            'ordered pair of different variants with equally many leaves (all pairs in the thorough tier) must be refused '
+            'by the row (outputs) and column (inputs) constructors at the first or a random position of every multi-block '
+            'container, equal variants accepted. Non-trivial: constructor refusal, arity one, nested or dict '
             'container, pytree-valued block, or a product rewritten by a block rule.'
         )
 
@@ -348,6 +502,9 @@ class Check(PropertyCheck):
         ctor = A.observe_impl(lambda: cls(blocks), enc)
         op = ctor.pop('_op', None)
         obs['ctor'] = ctor
+        if case['kind'] == 'mismatch':
+            # the harness's own (independent) view of the shared structures, dict keys included
+            obs['shared'] = sorted({G.key(b.out_structure() if kind == 'row' else b.in_structure()) for b in leaves})
         case['_l'] = clist(terms, str)
         case['_td'] = td
         case['_x'] = None
@@ -363,18 +520,26 @@ class Check(PropertyCheck):
                 want_in = leaves[0].in_structure()
             _ = blocks_in
             obs['want_in'], obs['want_out'] = A.struct_repr(want_in), A.struct_repr(want_out)
+            # the same comparison with the dict keys (struct_repr, like the model's show_struct, omits them)
+            obs['keys'] = {'in': G.key(op.in_structure()), 'out': G.key(op.out_structure()),
+                           'want_in': G.key(want_in), 'want_out': G.key(want_out)}
             # mv on an integer input
             x = rand_input(op.in_structure(), random.Random(case['xseed']))
             case['_x'] = value_coq(x)
             try:
                 y = op.mv(x)
                 obs['mv'] = value_repr(y)
+                obs['mv_key'] = tree_key(y, lambda v: int(np.size(v)))
+                obs['out_key'] = tree_key(op.out_structure(), lambda l: int(np.prod(l.shape)))
                 obs['mv_flat'] = [A.frac_json(A.to_frac(v)) for v in A.flat(y)]
             except Exception as e:
                 obs['mv'] = None
                 obs['mv_error'] = f'{type(e).__name__}: {str(e)[:200]}'
             obs['mv_ref'] = [A.frac_json(A.to_frac(v)) for v in ref @ A.flat(x)]
-            obs['T'] = strip(A.observe_impl(lambda: op.T, enc))
+            tobs = A.observe_impl(lambda: op.T, enc)
+            if '_op' in tobs:
+                tobs['keys'] = {'in': G.key(tobs['_op'].in_structure()), 'out': G.key(tobs['_op'].out_structure())}
+            obs['T'] = strip(tobs)
             closed = closed_inverse(case)
             with A.quiet_config():
                 inv = A.observe_impl(lambda: op.I, enc, want_matrix=closed)
@@ -494,7 +659,8 @@ class Check(PropertyCheck):
             return None
         if case['kind'] == 'mismatch':
             if obs['ctor'].get('err') != 'ValueError':
-                return f'blocks with mismatching shared structures were not refused with ValueError: {obs["ctor"].get("err") or obs["ctor"].get("skel")}'
+                return (f'blocks with mismatching shared structures {obs.get("shared")} were not refused with ValueError: '
+                        f'{obs["ctor"].get("err") or obs["ctor"].get("skel")}')
             return None
         if case['kind'] == 'single':
             return self.oracle_single(case, obs)
@@ -528,6 +694,9 @@ class Check(PropertyCheck):
         ref = obs['ref']
         if c['in'] != obs['want_in'] or c['out'] != obs['want_out']:
             return f'declared structures {c["in"]} -> {c["out"]} are not those of the blocks {obs["want_in"]} -> {obs["want_out"]}'
+        k = obs['keys']
+        if k['in'] != k['want_in'] or k['out'] != k['want_out']:
+            return f'declared structures {k["in"]} -> {k["out"]} are not those of the blocks {k["want_in"]} -> {k["want_out"]} (dict keys)'
         if c.get('mat') is None:
             return f'the block operator cannot be applied to basis vectors: {c.get("mat_error")}'
         if not A.mat_close(c['mat'], ref):
@@ -538,6 +707,8 @@ class Check(PropertyCheck):
             return f'mv returned {obs["mv_flat"]}, the stacked matrix gives {obs["mv_ref"]}'
         if _shape_of_value(obs['mv']) != _shape_of_struct(c['out']):
             return f'mv returned a value of structure {obs["mv"]}, declared {c["out"]}'
+        if obs['mv_key'] != obs['out_key']:
+            return f'mv returned a value of structure {obs["mv_key"]}, declared {obs["out_key"]} (dict keys)'
         if obs['asmat'] is None:
             return f'as_matrix() failed: {obs.get("asmat_error")}'
         if not A.mat_close(obs['asmat'], ref):
@@ -549,6 +720,8 @@ class Check(PropertyCheck):
             return f'.T is {t["skel"][0]} with {len(t["skel"][3])} blocks'
         if t['in'] != c['out'] or t['out'] != c['in']:
             return '.T does not swap the structures'
+        if t['keys']['in'] != k['out'] or t['keys']['out'] != k['in']:
+            return f'.T does not swap the structures (dict keys): {t["keys"]} vs {k["in"]} -> {k["out"]}'
         refT = [list(r) for r in zip(*ref)] if ref and ref[0] else []
         if t.get('mat') is None or (refT and not A.mat_close(t['mat'], refT)):
             return f'matrix of .T {t.get("mat")} is not the transposed stacked matrix {refT} ({t.get("mat_error")})'
